@@ -624,7 +624,7 @@ def _guess_peak(
 ) -> dict[str, sc.Variable]:
     # 2* to match the range in _guess_background
     n = int(len(data) * fit_parameters.guess_background_fraction / 2)
-    bulk = data[n:-n]
+    bulk = data[n : len(data) - n]
     return model.guess(bulk)
 
 
